@@ -330,6 +330,15 @@ theorem sort_carries {f g : Frame α} {asc : Bool} {key : Option (SortKeys α)} 
       · simp only [Except.ok.injEq] at h; subst h
         exact ⟨rfl, rfl, by simp [Frame.takeCols]⟩
 
+/-- A key function returning a 2-D array of exactly one column is sorted like that column given as
+    a 1-D array (the code squeezes it: `v[:, 0]`; one `lexsort` pass = one `argsort`). -/
+theorem one_column_key (n : Nat) (c : List α) :
+    orderOf le n (.multi [c]) = orderOf le n (.single c) := by
+  by_cases h : c.length = n
+  · subst h
+    simp [orderOf, lexsort, argsortStable]
+  · simp [orderOf, h]
+
 /-- A key function returning a container of the wrong length is rejected (RuntimeError), never
     silently truncated. -/
 theorem key_length_checked (n : Nat) (v : List α) (asc : Bool) (h : v.length ≠ n) :
@@ -346,6 +355,11 @@ example : sortIndexForOrder leInt 5 (.single [2, -1, 2, -1, 0]) true = .ok [1, 3
 
 example : sortIndexForOrder leInt 5 (.single [2, -1, 2, -1, 0]) false = .ok [2, 0, 4, 3, 1] := by
   simp [sortIndexForOrder, orderOf, argsortStable, sortOn, List.mergeSort,
+    List.MergeSort.Internal.splitInTwo, optLe, leInt, List.range, List.range.loop]
+
+/-- a 2-D key array of one column -/
+example : sortIndexForOrder leInt 3 (.multi [[2, -1, 2]]) true = .ok [1, 0, 2] := by
+  simp [sortIndexForOrder, orderOf, lexsort, sortOn, List.mergeSort,
     List.MergeSort.Internal.splitInTwo, optLe, leInt, List.range, List.range.loop]
 
 /-- two depths: depth 0 is primary although `np.lexsort` takes it last -/
